@@ -107,6 +107,12 @@ Definition pos_shift (p : posrule) : Z := match p with ZeroBased => 0 | OneBased
 Definition current_posrule : posrule := ZeroBased.
 Definition repaired_posrule : posrule := OneBased.
 
+(* find_recombination on a family without accessible position: the current code trips its length assertion
+   (both cost computers return [0] for an empty position list); the repair returns no event *)
+Inductive emptyrule : Type := Strict | EmptyOk.
+Definition current_emptyrule : emptyrule := Strict.
+Definition repaired_emptyrule : emptyrule := EmptyOk.
+
 (* ------------------------------------------------------------------ data of a run *)
 Record read := mkRead {
   r_name : Z;
@@ -219,8 +225,11 @@ Definition block_ids (comps : list (Z * Z)) : list Z := dedup (map snd comps).
 Definition block_of (comps : list (Z * Z)) (b : Z) : list Z :=
   isort Z.leb (map fst (filter (fun pc => snd pc =? b) comps)).          (* block.sort() *)
 
-Definition find_recombination (tv : list Z) (comps : list (Z * Z)) (positions costs : list Z)
+Definition find_recombination (er : emptyrule) (tv : list Z) (comps : list (Z * Z)) (positions costs : list Z)
   : option (list event) :=
+  match er, positions with
+  | EmptyOk, [] => Some []
+  | _, _ =>
   if negb ((length tv =? length positions)%nat && (length positions =? length costs)%nat) then None
   else if negb (forallb (fun pc => existsb (Z.eqb (fst pc)) positions) comps) then None
   else
@@ -229,7 +238,8 @@ Definition find_recombination (tv : list Z) (comps : list (Z * Z)) (positions co
                   (block_ids comps) with
     | None => None
     | Some blocks => Some (isort ev_leb (flat_map block_events blocks))     (* events.sort() *)
-    end.
+    end
+  end.
 
 (* ------------------------------------------------------------------ write_recombination_list: entries of one call *)
 Fixpoint digits4 (n : nat) (v : Z) : list Z :=
@@ -243,14 +253,14 @@ Definition tv_of_trio (ntrios k : nat) (tv : list Z) : list Z :=
 Definition entry_of_event (child chromname : Z) (e : event) : rec_entry :=
   mkCE child chromname (ev_p1 e + 1) (ev_p2 e + 1) (ev_f1 e) (ev_f2 e) (ev_m1 e) (ev_m2 e) (ev_cost e).
 
-Definition trio_rec_entries (chromname : Z) (i : inst) (kt : nat * (Z * (Z * Z))) : option (list rec_entry) :=
+Definition trio_rec_entries (er : emptyrule) (chromname : Z) (i : inst) (kt : nat * (Z * (Z * Z))) : option (list rec_entry) :=
   option_map (map (entry_of_event (fst (snd kt)) chromname))
-             (find_recombination (tv_of_trio (length (i_trios i)) (fst kt) (i_tv i))
+             (find_recombination er (tv_of_trio (length (i_trios i)) (fst kt) (i_tv i))
                                  (i_comps i) (i_positions i) (i_costs i)).
 
-Definition inst_rec_entries (chromname : Z) (i : inst) : option (list rec_entry) :=
+Definition inst_rec_entries (er : emptyrule) (chromname : Z) (i : inst) : option (list rec_entry) :=
   option_map (@concat rec_entry)
-             (map_opt (trio_rec_entries chromname i) (combine (seq 0 (length (i_trios i))) (i_trios i))).
+             (map_opt (trio_rec_entries er chromname i) (combine (seq 0 (length (i_trios i))) (i_trios i))).
 
 (* ------------------------------------------------------------------ ReadList.write: entries of one call *)
 Definition read_entry_of (ids : list (Z * Z)) (scomps : list (Z * list (Z * Z))) (rh : read * Z)
@@ -408,11 +418,11 @@ Record chrom_result := mkCR {
   cr_vcf : list (list (Z * list Z))        (* genotypes of the output records *)
 }.
 
-Definition chrom_step (pr : posrule) (o : opts) (ids : list (Z * Z)) (vcf_samples : list Z) (c : chrom)
+Definition chrom_step (pr : posrule) (er : emptyrule) (o : opts) (ids : list (Z * Z)) (vcf_samples : list Z) (c : chrom)
   : option chrom_result :=
   if c_selected c then
     match (if o_reads o then chrom_read_calls ids [] (c_insts c) else Some []),
-          (if o_recs o then map_opt (inst_rec_entries (c_name c)) (c_insts c) else Some []),
+          (if o_recs o then map_opt (inst_rec_entries er (c_name c)) (c_insts c) else Some []),
           write_records pr (c_name c) vcf_samples (targets_of (c_insts c)) None (c_records c) with
     | Some rd, Some rc, Some wr =>
         Some (mkCR rd rc (if o_gts o then [concat (map fst wr)] else []) (map snd wr))
@@ -436,9 +446,9 @@ Definition requested {E : Type} (b : bool) (f : file E) : file E := if b then f 
 
 (* gt_rule / rec_rule: the writer rule of the changed-genotype / recombination list; the read list is
    always PerRun (ReadList is a context manager entered before the main loop).  None = the run crashed. *)
-Definition run (gt_rule rec_rule : wrule) (pr : posrule) (o : opts) (ids : list (Z * Z))
+Definition run (gt_rule rec_rule : wrule) (pr : posrule) (er : emptyrule) (o : opts) (ids : list (Z * Z))
            (vcf_samples : list Z) (cs : list chrom) : option outputs :=
-  match map_opt (chrom_step pr o ids vcf_samples) cs with
+  match map_opt (chrom_step pr er o ids vcf_samples) cs with
   | None => None
   | Some rs =>
       Some (mkOut (requested (o_reads o) (write_calls PerRun (flat_map cr_reads rs)))
@@ -447,8 +457,8 @@ Definition run (gt_rule rec_rule : wrule) (pr : posrule) (o : opts) (ids : list 
                   (map cr_vcf rs))
   end.
 
-Definition run_current := run current_rule current_rule current_posrule.
-Definition run_repaired := run repaired_rule repaired_rule repaired_posrule.
+Definition run_current := run current_rule current_rule current_posrule current_emptyrule.
+Definition run_repaired := run repaired_rule repaired_rule repaired_posrule repaired_emptyrule.
 
 (* all (chromosome, family) instances that the run processes, in processing order *)
 Definition instances (cs : list chrom) : list (chrom * inst) :=
@@ -666,7 +676,7 @@ Definition spec_rec_sound (cs : list chrom) (ob : observed) : bool :=
 (* the events of every processed (chromosome, family) are all there, and nothing else *)
 Definition spec_rec_cover (cs : list chrom) (ob : observed) : bool :=
   match entries_of (ob_recs ob),
-        map_opt (fun ci => inst_rec_entries (c_name (fst ci)) (snd ci)) (instances cs) with
+        map_opt (fun ci => inst_rec_entries current_emptyrule (c_name (fst ci)) (snd ci)) (instances cs) with
   | Some es, Some calls => perm_eqb ce_eqb es (concat calls)
   | _, _ => false
   end.
@@ -684,7 +694,7 @@ Record case := mkCase {
   k_samples : list Z;                        (* samples of the VCF header *)
   k_cs : list chrom;                         (* input VCF + traced instances *)
   k_ob : observed;                           (* what the real run wrote *)
-  k_inst_recs : option (list (list rec_entry))   (* real write_recombination_list on each traced instance alone *)
+  k_inst_recs : option (list (option (list rec_entry)))   (* real write_recombination_list on each traced instance alone (None: AssertionError) *)
 }.
 
 (* multiset inclusion *)
@@ -729,33 +739,54 @@ Definition chk_rec_cover (k : case) : bool :=
   negb (o_recs (k_opts k)) ||
   match k_inst_recs k with
   | Some real => match entries_of (ob_recs (k_ob k)) with
-                 | Some es => perm_eqb ce_eqb es (concat real)
+                 | Some es => perm_eqb ce_eqb es (flat_map (fun x => match x with Some l => l | None => [] end) real)
                  | None => false
                  end
   | None => spec_rec_cover (k_cs k) (k_ob k)
   end.
 
-Definition with_run (gr rr : wrule) (pr : posrule) (k : case) (f : outputs -> bool) : bool :=
-  match run gr rr pr (k_opts k) (k_ids k) (k_samples k) (k_cs k) with
+(* the read list, the changed-genotype list and the output genotypes do not depend on --recombination-list:
+   they are compared with the run of the model without it (so that the empty-family rule does not matter) *)
+Definition no_recs (o : opts) : opts := mkOpts (o_reads o) (o_gts o) false.
+Definition with_run (gr rr : wrule) (pr : posrule) (er : emptyrule) (o : opts) (k : case) (f : outputs -> bool) : bool :=
+  match run gr rr pr er o (k_ids k) (k_samples k) (k_cs k) with
   | Some out => f out
   | None => false
   end.
 Definition l2_reads (k : case) : bool :=
-  with_run current_rule current_rule current_posrule k
+  with_run current_rule current_rule current_posrule current_emptyrule (no_recs (k_opts k)) k
            (fun out => file_eqb re_eqb (out_reads out) (ob_reads (k_ob k))).
 Definition l2_vcf (k : case) : bool :=
-  with_run current_rule current_rule current_posrule k (fun out => vcf_eqb (out_vcf out) (ob_vcf (k_ob k))).
+  with_run current_rule current_rule current_posrule current_emptyrule (no_recs (k_opts k)) k
+           (fun out => vcf_eqb (out_vcf out) (ob_vcf (k_ob k))).
 Definition l2_gts (gr : wrule) (pr : posrule) (k : case) : bool :=
-  with_run gr current_rule pr k (fun out => file_eqb ge_eqb (out_gts out) (ob_gts (k_ob k))).
-Definition l2_recs (rr : wrule) (k : case) : bool :=
-  with_run current_rule rr current_posrule k (fun out => file_eqb ce_eqb (out_recs out) (ob_recs (k_ob k))).
+  with_run gr current_rule pr current_emptyrule (no_recs (k_opts k)) k
+           (fun out => file_eqb ge_eqb (out_gts out) (ob_gts (k_ob k))).
+Definition l2_recs (rr : wrule) (er : emptyrule) (k : case) : bool :=
+  with_run current_rule rr current_posrule er (k_opts k) k
+           (fun out => file_eqb ce_eqb (out_recs out) (ob_recs (k_ob k))).
 (* the per-call function of the model against the real function called on every traced instance *)
-Definition l2_inst_recs (k : case) : bool :=
+Definition l2_inst_recs (er : emptyrule) (k : case) : bool :=
   match k_inst_recs k with
   | None => true
   | Some real =>
-      match map_opt (fun ci => inst_rec_entries (c_name (fst ci)) (snd ci)) (instances (k_cs k)) with
-      | Some calls => list_eqb (list_eqb ce_eqb) calls real
-      | None => false
-      end
+      list_eqb (opt_eqb (list_eqb ce_eqb))
+               (map (fun ci => inst_rec_entries er (c_name (fst ci)) (snd ci)) (instances (k_cs k))) real
   end.
+
+(* crashed runs: the model also reaches its error value, and the error is find_recombination's assertion on an
+   instance without accessible positions whose cost vector is not empty *)
+Definition model_crashes (k : case) : bool :=
+  match run_current (k_opts k) (k_ids k) (k_samples k) (k_cs k) with
+  | None => true
+  | Some _ => false
+  end.
+Definition crash_is_empty_instance (k : case) : bool :=
+  o_recs (k_opts k) &&
+  existsb (fun ci => match inst_rec_entries current_emptyrule (c_name (fst ci)) (snd ci) with
+                     | None => match i_positions (snd ci), i_costs (snd ci) with
+                               | [], _ :: _ => negb (match i_trios (snd ci) with [] => true | _ => false end)
+                               | _, _ => false
+                               end
+                     | Some _ => false
+                     end) (instances (k_cs k)).
